@@ -84,18 +84,23 @@ Theorem C05_commands_as_sent : forall k cn k' ds e,
 Proof. exact serve_conn_commands_as_sent. Qed.
 Print Assumptions C05_commands_as_sent.
 
-(* What a resumed session carries is exactly what was stored: Authenticated,
-   User, the ghost "really authenticated"; the stream really encrypts iff a
-   usable AES key is stored. *)
+(* Session properties restored on resumption: only an entry with a usable AES
+   key is resumed at all; the resumed session carries exactly the stored
+   Authenticated, User and the ghost "really authenticated", reports Encryption
+   and the stream really is encrypting. *)
 Theorem C05_resumption_restores : forall en s c cs,
   resume en s c = Some cs ->
+  e_key en = KAes /\
   n_cmd (cs_neg cs) = c /\ n_sid (cs_neg cs) = s /\
   n_authn (cs_neg cs) = e_authn en /\ n_user (cs_neg cs) = e_user en /\
   cs_auth_real cs = e_auth_real en /\
-  (cs_enc_real cs = true <-> e_key en = KAes) /\
-  (n_enc (cs_neg cs) = true <-> (e_key en = KAes \/ e_key en = KAesEmpty)).
+  n_enc (cs_neg cs) = true /\ cs_enc_real cs = true /\ n_resumed (cs_neg cs) = true.
 Proof. exact resume_restores. Qed.
 Print Assumptions C05_resumption_restores.
+
+Theorem C05_resumption_needs_key : forall en s c, e_key en <> KAes -> resume en s c = None.
+Proof. exact resume_needs_key. Qed.
+Print Assumptions C05_resumption_needs_key.
 
 (* ValidCommands is limited to authenticated commands this very session could
    run right now. *)
@@ -154,14 +159,13 @@ Proof.
   eexists. split; [vm_compute; left; reflexivity|]. vm_compute. auto.
 Qed.
 
-(* ... and so is "no empty AES key" for application-installed sessions:
-   handleSessionResumption derives Encryption=true from the protocol name of a
-   KeyInfo whose Data is empty and never installs a key. *)
-Example C05_real_needs_nonempty_key :
+(* ... and so is the one on application-installed sessions: an entry marked
+   Authenticated although nothing ever authenticated it is resumed as authenticated. *)
+Example C05_real_needs_faithful_entries :
   exists evs i, In i (history_invocations [] evs) /\ i_rawpath i = false /\
-                requires_enc (policy_now i) = true /\ i_enc_real i = false.
+                requires_authn (policy_now i) = true /\ i_auth_real i = false.
 Proof.
-  exists [ EImport 1%N {| e_key := KAesEmpty; e_authn := true; e_user := 2%N; e_auth_real := true |};
+  exists [ EImport 1%N {| e_key := KAes; e_authn := true; e_user := 2%N; e_auth_real := false |};
            EConn {| c_srv := ex_srv None; c_peer := 1%N; c_first := Some DC_AUTHENTICATE;
                     c_hs := HsResume 1%N (Some 1005%Z) true; c_steps := [] |} ].
   eexists. split; [vm_compute; left; reflexivity|]. vm_compute. auto.
